@@ -1,4 +1,5 @@
 import CaresModel.Generated.EvTimeout
+import CaresModel.Generated.EvWake
 /-
 Model of the built-in event thread and its interaction with client threads
 (src/lib/event/ares_event_thread.c: ares_event_thread(), ares_event_update(), ares_event_thread_wake();
@@ -11,8 +12,8 @@ it stays readable until the event thread's wait returns and drains it.
 
 The transition system is small-step: every lock acquisition is its own step so that lock order and the
 window between "timeout computed" and "asleep" are visible.  Time is a millisecond counter advanced by
-the environment.  `wakeOnEarliest` selects the code as repaired (true: a query whose deadline becomes the
-earliest wakes the thread) or as pinned (false: only a socket-state change wakes it).
+the environment.  `wakeOnEarliest` selects the code as it is in the tree (true: the wake-up guard of ares_send_query, regenerated
+from the source) or as pinned (false: only a socket-state change wakes it).
 -/
 namespace Cares.Event
 
@@ -140,9 +141,10 @@ def etStep (s : St) : St :=
 def clientSend (s : St) (d : Nat) (sc : Bool) : St :=
   if s.cpc != .idle then s else
   if !lFree s then s else
-  let earliest := s.deadlines.all (fun x => d ≤ x)
+  -- the guard of the wake-up in ares_send_query, as tools/gen_evwake.py re-extracts it from the source on every run
+  let wakes := Cares.Generated.Ev.wakeOnSend d s.deadlines
   { s with cHoldsL := true, deadlines := d :: s.deadlines, cpc := .inSend d sc,
-           wake := s.wake || (s.wakeOnEarliest && earliest) }
+           wake := s.wake || (s.wakeOnEarliest && wakes) }
 
 def clientStep (s : St) : St :=
   match s.cpc with
